@@ -1,12 +1,19 @@
-"""Two corrections to CrossHair 0.0.110's model of CPython, applied in every symbolic worker.
+"""Three corrections to CrossHair 0.0.110's model of CPython, applied in every symbolic worker.
 
-Both make the model *more* faithful to CPython (they are not abstractions of /repo code), and
-both are validated the usual way: every counterexample and every witness is re-run natively.
+All make the model *more* faithful to CPython (they are not abstractions of /repo code), and
+all are validated the usual way: every counterexample and every witness is re-run natively.
 
 1. format(x, "") for a collections.UserString instance (htmltools.HTML) without its own
    __format__ is object.__format__, i.e. str(x).  CrossHair formatted it through a path that
    forks per character when x wraps a symbolic string (f' {key}="{val}"' in
    Tag.get_html_string never finished for |val| <= 1); returning x.__str__() keeps the value symbolic.
+
+3. str equality: CrossHair keeps a symbolic string's code points in list-like or tuple-like
+   containers (SymbolicBoundedIntTuple models a tuple; slices and concatenations hold lists), and
+   LazyIntSymbolicStr.__eq__ compared the containers with ==, so `tuple-like == list-like` came out
+   False even when the characters were equal: ("\x01 ").split()[0] == "\x01" was False while the
+   reflected comparison was True.  Code points are now compared position by position whatever the
+   container types are (one SMT conjunction when a SymbolicBoundedIntTuple is involved).
 
 2. CPython evaluates `"a" + obj` for a non-str obj by falling back to type(obj).__radd__
    (str has no nb_add slot).  CrossHair's symbolic str.__add__ raised TypeError instead, so
@@ -48,3 +55,54 @@ def apply() -> None:
         return orig_add(self, other)
 
     bl.LazyIntSymbolicStr.__add__ = add  # type: ignore[method-assign]
+
+
+    # ---- 3. container-type-agnostic comparison of code point sequences
+    from crosshair.simplestructs import SequenceConcatenation
+    from crosshair.tracers import ResumedTracing
+
+    SBT = bl.SymbolicBoundedIntTuple
+
+    def points_eq(a, b):  # tracing is ON here
+        with NoTracing():
+            a_sym, b_sym = isinstance(a, SBT), isinstance(b, SBT)
+            a_cat, b_cat = isinstance(a, SequenceConcatenation), isinstance(b, SequenceConcatenation)
+            both_real = isinstance(a, (list, tuple)) and isinstance(b, (list, tuple))
+        if b_sym:
+            return b.__eq__(a)
+        if a_sym:
+            return a.__eq__(b)
+        if a_cat or b_cat:
+            if b_cat and not a_cat:
+                a, b = b, a
+            if a.__len__() != b.__len__():
+                return False
+            n = a._first.__len__()
+            if not points_eq(a._first, b[:n]):
+                return False
+            return points_eq(a._second, b[n:])
+        if both_real:
+            with NoTracing():
+                same_kind = type(a) is type(b)
+            if same_kind:
+                return a == b
+        if a.__len__() != b.__len__():
+            return False
+        for x, y in zip(a, b):
+            if x != y:
+                return False
+        return True
+
+    def str_eq(self, other):
+        with NoTracing():
+            mypoints = self._codepoints
+            if isinstance(other, bl.LazyIntSymbolicStr):
+                otherpoints = other._codepoints
+            elif isinstance(other, str):
+                otherpoints = [ord(ch) for ch in other]
+            else:
+                return NotImplemented
+        with ResumedTracing():
+            return points_eq(mypoints, otherpoints)
+
+    bl.LazyIntSymbolicStr.__eq__ = str_eq  # type: ignore[method-assign]
